@@ -82,6 +82,10 @@ func (f *FuncValue) Apply(args ...interface{}) Slice {
 func (f *FuncValue) applyValue(args []reflect.Value) Slice {
 	argTypes := make([]reflect.Type, len(args))
 	for i, arg := range args {
+		if i >= len(f.args) {
+			// Too many arguments: reported by typecheck below.
+			break
+		}
 		if !arg.IsValid() {
 			if !isNilAssignable(f.args[i]) {
 				// Untyped nil argument for type that cannot be nil.
